@@ -20,24 +20,30 @@ import sys
 # ----------------------------------------------------------------------------- AST constructors
 
 
-def arg(ty):
-    return {"k": "argument", "ty": ty}
+def arg(ty, help=None):
+    return {"k": "argument", "ty": ty, "help": help}
 
 
-def flag(short, long, ty, active, inactive):
-    return {"k": "flag", "short": short, "long": long, "ty": ty, "active": active, "inactive": inactive}
+def flag(short, long, ty, active, inactive, help=None):
+    return {"k": "flag", "short": short, "long": long, "ty": ty, "active": active, "inactive": inactive, "help": help}
 
 
-def sw(short, long):
-    return {"k": "switch", "short": short, "long": long}
+def sw(short, long, help=None):
+    return {"k": "switch", "short": short, "long": long, "help": help}
 
 
 def usw(short, long):
     return {"k": "unit_switch", "short": short, "long": long}
 
 
-def opt(short, long, ty, default=None):
-    return {"k": "option", "short": short, "long": long, "ty": ty, "default": default}
+def opt(short, long, ty, default=None, help=None):
+    return {"k": "option", "short": short, "long": long, "ty": ty, "default": default, "help": help}
+
+
+def wrap(how, p):
+    """how: base (make_base<result_of<P>>), base_permuted (make_base with the record elements in
+    reverse order; p must be a product of leaves), cref (fcppt::make_cref of a parser kept alive)"""
+    return {"k": "wrap", "how": how, "sub": p}
 
 
 def unit():
@@ -70,7 +76,8 @@ def commands(common, *subs):
 
 # ----------------------------------------------------------------------------- the family
 # (name, ast, flags)   flags: c = among the cheapest (argv <= 6 in the thorough tier), h = also driven
-# through parse_help with the default help switch ("--help" is then part of the alphabet)
+# through parse_help with the default help switch ("--help" is then part of the alphabet), H = also
+# driven through parse_help with the custom help switch CUSTOM_HELP
 
 FAMILY = [
     ("arg_int", arg("int"), "c"),
@@ -137,6 +144,25 @@ FAMILY = [
     ("help_commands", commands(opt(None, "opt", "int", 7), ("ca", unit())), "h"),
     ("help_arg_opt", prod(arg("int"), opt(None, "opt", "int")), "h"),
     ("help_many_opt", prod(many(arg("string")), opt("o", "opt", "string")), "h"),
+    # extension round: composition forms, custom help switch, help texts, defaults of every type
+    ("base_product", wrap("base", prod(arg("int"), sw(None, "flag"))), ""),
+    ("base_permuted", wrap("base_permuted", prod(arg("int"), sw(None, "flag"), opt("o", "opt", "string", "d"))), ""),
+    ("base_in_product", prod(wrap("base", prod(arg("int"), opt(None, "opt", "int"))), sw("f", "flag")), "h"),
+    ("cref_subparsers", prod(wrap("cref", arg("string")), wrap("cref", opt("o", "opt", "int"))), ""),
+    ("many_cref_optional_base", prod(many(wrap("cref", arg("int"))), optional(wrap("base", opt(None, "opt", "string")))), ""),
+    ("commands_shared_names", commands(sw(None, "flag"), ("ca", opt(None, "opt", "int")), ("cb", opt(None, "opt", "string"))), ""),
+    ("commands_nested", commands(sw(None, "flag"), ("ca", commands(opt(None, "opt", "int", 7), ("cx", arg("int"))))), ""),
+    ("sum_of_sums_left", sm(sm(usw(None, "flag"), usw(None, "zed")), arg("int")), ""),
+    ("sum_of_sums_both", sm(sm(usw(None, "flag"), arg("int")), sm(usw(None, "zed"), arg("string"))), ""),
+    ("many_product_switch", many(prod(sw("f", "flag"), arg("int"))), ""),
+    ("many_product_uswitch", many(prod(usw(None, "flag"), arg("string"))), ""),
+    ("opt_int_default", opt("o", "opt", "int", 3), ""),
+    ("opt_string_default", opt(None, "opt", "string", "d"), ""),
+    ("flag_string_short", flag("f", "flag", "string", "on", "off"), ""),
+    ("help_custom_switch", prod(sw("f", "flag"), arg("int")), "H"),
+    ("usage_doc_complex", prod(arg("string", "Input file"), optional(arg("string", "Output file")),
+                               sw("e", "execute", "Whether to execute"),
+                               opt(None, "loglevel", "enum", "v", "The level")), "h"),
     # definitions that are not well formed (constructor outcome only)
     ("bad_flag_names", flag("flag", "flag", "int", 1, 0), ""),
     ("bad_flag_values", flag(None, "flag", "int", 0, 0), ""),
@@ -151,9 +177,11 @@ FAMILY = [
     ("bad_product_sum_right", prod(sw(None, "flag"), sm(usw(None, "zed"), usw(None, "flag"))), ""),
     ("bad_product_sum_left_option", prod(opt(None, "opt", "int"), sm(opt(None, "opt", "string"), usw(None, "zed"))), ""),
     ("bad_product_sum_right_option", prod(opt(None, "opt", "int"), sm(usw(None, "zed"), opt(None, "opt", "string"))), ""),
+    ("bad_product_base", prod(wrap("base", sw(None, "flag")), wrap("cref", usw(None, "flag"))), ""),
     ("bad_commands_names", commands(unit(), ("ca", unit()), ("ca", arg("int"))), ""),
 ]
 
+CUSTOM_HELP = ("h", "assist")             # help_switch{short_name "h", long_name "assist"}
 MANDATORY = ["--zz", "-", "--", "5", "w"]
 FILLERS = ["7", "v", "-z", "x"]
 EXTRA = ["", "-5", "5w", "--opt=5"]      # only used by the random long vectors of the thorough tier
@@ -213,7 +241,10 @@ def annotate(p, nb):
     if k == "argument":
         nb.args += 1
         p["name"] = "a%d" % nb.args
-    if k in ("optional", "many"):
+    if k == "wrap":
+        nb.wraps = getattr(nb, "wraps", 0) + 1
+        p["w"] = nb.wraps
+    if k in ("optional", "many", "wrap"):
         annotate(p["sub"], nb)
     elif k in ("product", "sum"):
         annotate(p["l"], nb)
@@ -232,7 +263,7 @@ def own_tokens(p, acc):
         for t in ["--" + p["long"]] + (["-" + p["short"]] if p["short"] is not None else []):
             if t not in acc:
                 acc.append(t)
-    elif k in ("optional", "many"):
+    elif k in ("optional", "many", "wrap"):
         own_tokens(p["sub"], acc)
     elif k in ("product", "sum"):
         own_tokens(p["l"], acc)
@@ -254,6 +285,12 @@ def to_json(p):
         j["label"] = p["label"]
     if k == "argument":
         j["ty"] = p["ty"]
+        j["name"] = cps(p["name"])
+    if k in ("argument", "flag", "switch", "option"):
+        j["help"] = [] if p.get("help") is None else [cps(w) for w in p["help"].split()]
+    if k == "wrap":
+        j["how"] = p["how"]
+        j["sub"] = to_json(p["sub"])
     if k in ("flag", "switch", "unit_switch", "option"):
         j["short"] = [] if p["short"] is None else [cps(p["short"])]
         j["long"] = cps(p["long"])
@@ -264,6 +301,8 @@ def to_json(p):
     if k == "option":
         j["ty"] = p["ty"]
         j["default"] = [] if p["default"] is None else [render(p["ty"], p["default"])]
+        # the text operator<< prints for the default value (shown by usage())
+        j["default_text"] = [] if p["default"] is None else [cps(str(p["default"]))]
     if k in ("optional", "many"):
         j["sub"] = to_json(p["sub"])
     if k in ("product", "sum"):
@@ -288,26 +327,61 @@ def long_cpp(p):
 NOHELP = "fcppt::options::optional_help_text{}"
 
 
+def help_cpp(p):
+    if p.get("help") is None:
+        return NOHELP
+    return 'fcppt::options::optional_help_text{fcppt::options::help_text{FCPPT_TEXT("%s")}}' % p["help"]
+
+
+def leaves_of(p):
+    if p["k"] == "product":
+        return leaves_of(p["l"]) + leaves_of(p["r"])
+    return [p]
+
+
+def element_type(p):
+    k = p["k"]
+    if k in ("argument", "flag", "option"):
+        return CPP_TYPE[p["ty"]]
+    if k == "switch":
+        return "bool"
+    if k in ("unit_switch", "unit"):
+        return "fcppt::unit"
+    raise ValueError("base_permuted needs a product of leaves")
+
+
 def to_cpp(p):
     k = p["k"]
     if k == "argument":
         return 'fcppt::options::argument<%s, %s>{fcppt::options::long_name{FCPPT_TEXT("%s")}, %s}' % (
-            p["label"], CPP_TYPE[p["ty"]], p["name"], NOHELP)
+            p["label"], CPP_TYPE[p["ty"]], p["name"], help_cpp(p))
     if k == "flag":
         return "fcppt::options::flag<%s, %s>{%s, %s, fcppt::options::make_active_value(%s), fcppt::options::make_inactive_value(%s), %s}" % (
             p["label"], CPP_TYPE[p["ty"]], short_cpp(p), long_cpp(p), cpp_value(p["ty"], p["active"]),
-            cpp_value(p["ty"], p["inactive"]), NOHELP)
+            cpp_value(p["ty"], p["inactive"]), help_cpp(p))
     if k == "switch":
-        return "fcppt::options::switch_<%s>{%s, %s, %s}" % (p["label"], short_cpp(p), long_cpp(p), NOHELP)
+        return "fcppt::options::switch_<%s>{%s, %s, %s}" % (p["label"], short_cpp(p), long_cpp(p), help_cpp(p))
     if k == "unit_switch":
         return "fcppt::options::unit_switch<%s>{%s, %s}" % (p["label"], short_cpp(p), long_cpp(p))
     if k == "option":
         ty = CPP_TYPE[p["ty"]]
         d = ("fcppt::options::no_default_value<%s>()" % ty if p["default"] is None else
              "fcppt::options::make_default_value(fcppt::optional::make(%s))" % cpp_value(p["ty"], p["default"]))
-        return "fcppt::options::option<%s, %s>{%s, %s, %s, %s}" % (p["label"], ty, short_cpp(p), long_cpp(p), d, NOHELP)
+        return "fcppt::options::option<%s, %s>{%s, %s, %s, %s}" % (p["label"], ty, short_cpp(p), long_cpp(p), d, help_cpp(p))
     if k == "unit":
         return "fcppt::options::unit<%s>{}" % p["label"]
+    if k == "wrap":
+        inner = to_cpp(p["sub"])
+        if p["how"] == "cref":
+            # the referenced parser is a function-local static of the shape's namespace
+            return "fcppt::make_cref(cref_%d())" % p["w"]
+        if p["how"] == "base":
+            return ("[] {\n      auto inner{%s};\n      return fcppt::options::make_base<fcppt::options::result_of<decltype(inner)>>("
+                    "std::move(inner));\n    }()" % inner)
+        if p["how"] == "base_permuted":
+            els = ", ".join("fcppt::record::element<%s, %s>" % (l["label"], element_type(l)) for l in reversed(leaves_of(p["sub"])))
+            return "fcppt::options::make_base<fcppt::record::object<%s>>(%s)" % (els, inner)
+        raise ValueError(p["how"])
     if k == "optional":
         return "fcppt::options::make_optional(%s)" % to_cpp(p["sub"])
     if k == "many":
@@ -331,6 +405,23 @@ def to_cpp(p):
     raise ValueError(k)
 
 
+def crefs(p, acc):
+    """cref wrappers, innermost first"""
+    k = p["k"]
+    if k in ("optional", "many", "wrap"):
+        crefs(p["sub"], acc)
+        if k == "wrap" and p["how"] == "cref":
+            acc.append(p)
+    elif k in ("product", "sum"):
+        crefs(p["l"], acc)
+        crefs(p["r"], acc)
+    elif k == "commands":
+        crefs(p["common"], acc)
+        for s in p["subs"]:
+            crefs(s["p"], acc)
+    return acc
+
+
 def build():
     tokens = []
 
@@ -344,14 +435,15 @@ def build():
         p = json.loads(json.dumps(ast))
         nb = Numbering()
         annotate(p, nb)
-        own = (["--help"] if "h" in fl else []) + own_tokens(p, [])
+        hs = (None, "help") if "h" in fl else CUSTOM_HELP if "H" in fl else None
+        own = ([] if hs is None else ["--" + hs[1]] + (["-" + hs[0]] if hs[0] else [])) + own_tokens(p, [])
         assert len(own) <= 4, (name, own)
         alpha = own + MANDATORY
         for f in FILLERS:
             if len(alpha) < 9 and f not in alpha:
                 alpha.append(f)
         assert len(alpha) == 9 and len(set(alpha)) == 9, (name, alpha)
-        shapes.append({"id": i + 1, "name": name, "help": "h" in fl, "cheap": "c" in fl,
+        shapes.append({"id": i + 1, "name": name, "help": hs is not None, "hs": hs or (None, "help"), "cheap": "c" in fl,
                        "alphabet": [gid(t) for t in alpha], "extra": [gid(t) for t in EXTRA],
                        "nlabels": nb.labels, "ntags": nb.tags, "ast": p})
     return tokens, shapes
@@ -367,6 +459,7 @@ def emit(outdir, nparts):
     os.makedirs(outdir, exist_ok=True)
     js = {"tokens": [cps(t) for t in tokens],
           "shapes": [{"id": s["id"], "name": s["name"], "help": s["help"], "cheap": s["cheap"],
+                      "hshort": [] if s["hs"][0] is None else [cps(s["hs"][0])], "hlong": cps(s["hs"][1]),
                       "alphabet": s["alphabet"], "extra": s["extra"], "p": to_json(s["ast"])} for s in shapes]}
     write_if_changed(os.path.join(outdir, "parsers.json"), json.dumps(js, separators=(",", ":")) + "\n")
     parts = [[] for _ in range(nparts)]
@@ -382,6 +475,8 @@ def emit(outdir, nparts):
             for t in range(1, s["ntags"] + 1):
                 out.append("FCPPT_RECORD_MAKE_LABEL(T%d);" % t)
             out.append("// %s" % s["name"])
+            for w in crefs(s["ast"], []):
+                out.append("inline auto const &cref_%d()\n{\n  static auto const object{%s};\n  return object;\n}" % (w["w"], to_cpp(w["sub"])))
             out.append("inline auto make()\n{\n  return %s;\n}\n}" % to_cpp(s["ast"]))
             out.append("void c03_run_shape_%d(c03::driver &_d)\n{\n  _d.run<%s>(%d, [] { return s%d::make(); });\n}\n" % (
                 s["id"], "true" if s["help"] else "false", s["id"], s["id"]))
@@ -396,9 +491,10 @@ def emit(outdir, nparts):
         'std::string{"%s"}' % t for t in tokens))
     reg.append("std::vector<shape_info> const &shapes()\n{\n  static std::vector<shape_info> const s{")
     for s in shapes:
-        reg.append('      shape_info{%d, "%s", {%s}, {%s}, %s, %s, &c03_run_shape_%d},' % (
+        reg.append('      shape_info{%d, "%s", {%s}, {%s}, %s, "%s", "%s", %s, &c03_run_shape_%d},' % (
             s["id"], s["name"], ", ".join(map(str, s["alphabet"])), ", ".join(map(str, s["extra"])),
-            "true" if s["help"] else "false", "true" if s["cheap"] else "false", s["id"]))
+            "true" if s["help"] else "false", s["hs"][0] or "", s["hs"][1],
+            "true" if s["cheap"] else "false", s["id"]))
     reg.append("  };\n  return s;\n}\n}\n")
     f = os.path.join(outdir, "c03_registry.cpp")
     write_if_changed(f, "\n".join(reg))
@@ -418,6 +514,6 @@ def write_if_changed(path, text):
 
 if __name__ == "__main__":
     out = sys.argv[1] if len(sys.argv) > 1 else os.path.join(os.path.dirname(os.path.dirname(os.path.abspath(__file__))), "build", "gen", "c03")
-    n = int(sys.argv[2]) if len(sys.argv) > 2 else 12
+    n = int(sys.argv[2]) if len(sys.argv) > 2 else 16
     files, js = emit(out, n)
     print("%d shapes, %d tokens, %d files -> %s" % (len(js["shapes"]), len(js["tokens"]), len(files), out))
